@@ -384,7 +384,11 @@ func HarnessC11Tail() {
 		verifReach("compared")
 		return
 	}
-	nc := append(append(append([]verifSeg{}, chain[:q]...), verifSeg{segIndex, ""}), chain[q:]...)
+	extra := []verifSeg{{segIndex, ""}}
+	if verifChoose("twice", 2) == 1 {
+		extra = append(extra, verifSeg{segIndex, ""}) // two indexes in a row: only the first one can belong to a filter
+	}
+	nc := append(append(append([]verifSeg{}, chain[:q]...), extra...), chain[q:]...)
 	src := "github"
 	for _, s := range nc {
 		src += verifSegText(s)
